@@ -490,7 +490,9 @@ func (self *PathNode) handleChild(in *[]PathNode, lp *int, cp *int, p *binary.Bi
 
 	if tt.IsComplex() {
 		if recurse {
-			p.Buf = p.Buf[start:]
+			// the child is scanned inside its own extent only
+			end := p.Read
+			p.Buf = p.Buf[start:end]
 			p.Read = 0
 			parentDesc := desc
 			messageLen := 0
